@@ -437,9 +437,9 @@ package listz
 // node's next is nil, idx is injective per list.
 // ---------------------------------------------------------------------------------------------------------------
 //@ ghostfield syncNode.idx
-//@ ghostfield syncNode.lst
+//@ ghostfield syncNode.lst ref
 //@ ghostfield SyncList.n
-//@ ghostfield SyncList.last
+//@ ghostfield SyncList.last ref
 
 //@ spec pidx(p ref) int = cast(syncNode, p).idx
 //@ spec plst(p ref) int = cast(syncNode, p).lst
@@ -501,3 +501,12 @@ package listz
 //@     assert head != tail ==> (next != nil && plst(next) == l && pidx(next) == pidx(head) + 1)
 //@   at after-call5:
 //@     assert last_ret ==> (pidx(l.head) == pidx(head) + 1 && l.head == next)
+
+// NewSync establishes the shared invariant: the dummy node is published node number 1 of the new list
+//@ func NewSync
+//@   ensures fresh(result) && slEnds(result) && slChain(result) && slRange(result) && slInj(result) && result.n == 1
+//@   at end:
+//@     ghost cast(syncNode, result.head).idx = 1
+//@     ghost cast(syncNode, result.head).lst = result
+//@     ghost result.n = 1
+//@     ghost result.last = result.head
